@@ -323,6 +323,36 @@ fn check_overlong(thorough: bool, rep: &mut Report) -> u64 {
                     Err(p) => rep.violation(&format!("overlong/panic/{}", crate::panic_class(&p)), format!("panic: {}", p), format!("{{\"kind\": \"msg\", \"entry\": {}, \"hex\": {}}}", sk.entry, jstr(&hex(&w)))),
                 }
             }
+            // a further element *header* at the end of a constructed node, declaring contents that lie outside the node
+            // (all enclosing lengths adjusted so that only this last header overruns)
+            // Only SEQUENCE OF lists are judged (the varbind list of a PDU): there the decoder has to walk every element;
+            // a fixed-arity SEQUENCE may ignore what follows its last field without ever reading it.
+            let parent_tag = nodes[..i].iter().rev().find(|p| p.depth + 1 == node.depth && p.end() >= node.end()).map(|p| p.tag);
+            let is_varbind_list = node.tag == 0x30 && matches!(parent_tag, Some(0xa0..=0xa7));
+            if is_varbind_list && !is_opaque {
+                let chain: Vec<&rb::Node> = nodes[..=i].iter().filter(|p| p.start <= node.start && p.end() >= node.end()).collect();
+                for junk in [&[0x30u8, 0x7f][..], &[0x30][..], &[0x04, 0x05, 0xaa][..], &[0x02, 0x81][..], &[0x06, 0x03, 0x2b][..]] {
+                    if chain.iter().any(|p| p.hlen != 2 || p.len + junk.len() >= 0x80) {
+                        continue;
+                    }
+                    let mut w = d[..node.end()].to_vec();
+                    w.extend_from_slice(junk);
+                    w.extend_from_slice(&d[node.end()..]);
+                    for p in chain.iter() {
+                        w[p.start + 1] = (p.len + junk.len()) as u8;
+                    }
+                    n += 1;
+                    match guarded(|| msg_ok(sk.entry, &w)) {
+                        Ok(false) => {}
+                        Ok(true) => rep.violation(
+                            &format!("dangling-element-header-accepted/depth-{}/tag-{:02x}", node.depth, node.tag),
+                            format!("{}: element at offset {} (tag {:02x}) given a last child header {} whose declared contents lie outside it, but the message was accepted", sk.name, node.start, node.tag, hex(junk)),
+                            format!("{{\"kind\": \"msg\", \"entry\": {}, \"hex\": {}}}", sk.entry, jstr(&hex(&w))),
+                        ),
+                        Err(p) => rep.violation(&format!("overlong/panic/{}", crate::panic_class(&p)), format!("panic: {}", p), format!("{{\"kind\": \"msg\", \"entry\": {}, \"hex\": {}}}", sk.entry, jstr(&hex(&w)))),
+                    }
+                }
+            }
             for le in variants.iter() {
                 let mut w = d[..node.start + 1].to_vec();
                 w.extend_from_slice(le);
@@ -381,6 +411,53 @@ fn check_overlong(thorough: bool, rep: &mut Report) -> u64 {
                     );
                 }
             }
+        }
+    }
+    n
+}
+
+fn v3_response(d: &[u8]) -> Option<String> {
+    use gufo_snmp::snmp::msg::v3::MsgData;
+    use gufo_snmp::snmp::pdu::SnmpPdu;
+    let m = SnmpV3Message::try_from(d).ok()?;
+    match m.data {
+        MsgData::Plaintext(s) => match s.pdu {
+            SnmpPdu::GetResponse(r) => Some(format!("ctx-engine {} response {:?}", hex(s.engine_id), response_repr(r).vars.iter().map(|(o, v)| format!("{}={}", hex(o), vv(v))).collect::<Vec<_>>())),
+            _ => Some("other pdu".into()),
+        },
+        MsgData::Encrypted(x) => Some(format!("encrypted {}", x.len())),
+    }
+}
+
+/// contextName is an element like any other: whatever its contents (text, zeros, a complete PDU), the PDU that
+/// follows it is decoded from the octets *after* it - the result is that of the same message with an empty name.
+fn check_context_name(rep: &mut Report) -> u64 {
+    let mut n = 0u64;
+    let eng = b"\x80\x00\x1f\x88\x04eng";
+    let usm = rb::usm(eng, 7, 300, b"user1", b"", b"");
+    let vb = |v: i64| rb::varbind(&rb::enc_oid(&[1, 3, 6, 1, 2, 1, 1, 5, 0]), &rb::enc_int(v));
+    let pdu = rb::pdu(0xa2, 0x1234, 0, 0, &[vb(42)]);
+    let decoy = rb::pdu(0xa2, 0x1234, 0, 0, &[vb(666)]);
+    let base = rb::v3_msg(0x1234567, 65507, 0x00, &usm, &rb::scoped(eng, b"", &pdu));
+    let want = match guarded(|| v3_response(&base)) {
+        Ok(Some(w)) => w,
+        _ => return 0,
+    };
+    let mut names: Vec<Vec<u8>> = vec![b"c".to_vec(), b"ctx".to_vec(), vec![0u8; 5], vec![b'a'; 127], vec![b'a'; 128], vec![b'a'; 300], decoy.clone(), rb::enc_octets(b"x"), vec![0x30, 0x00], vec![0xa2, 0x7f]];
+    let mut padded = decoy.clone();
+    padded.extend_from_slice(&[0u8; 3]);
+    names.push(padded);
+    for name in names.iter() {
+        let m = rb::v3_msg(0x1234567, 65507, 0x00, &usm, &rb::scoped(eng, name, &pdu));
+        n += 1;
+        match guarded(|| v3_response(&m)) {
+            Ok(Some(got)) if got == want => {}
+            Ok(got) => rep.violation(
+                "context-name-contents-read-as-pdu",
+                format!("scoped PDU with a contextName of {} octets ({}…): decoded as {:?}, the same message with an empty contextName gives {}", name.len(), hex(&name[..name.len().min(12)]), got, want),
+                format!("{{\"kind\": \"msg\", \"entry\": 28, \"hex\": {}}}", jstr(&hex(&m))),
+            ),
+            Err(p) => rep.violation(&format!("context-name/panic/{}", crate::panic_class(&p)), format!("panic: {}", p), format!("{{\"kind\": \"msg\", \"entry\": 28, \"hex\": {}}}", jstr(&hex(&m)))),
         }
     }
     n
@@ -488,6 +565,7 @@ pub fn run(thorough: bool) -> Report {
     let r2 = par_shards(1, |_, rep, beat, label| {
         *label.lock().unwrap() = "over-long inner lengths".into();
         let mut n = check_overlong(thorough, rep);
+        n += check_context_name(rep);
         beat.fetch_add(1, Ordering::Relaxed);
         let nd = check_decrypt_extent(rep);
         rep.count("decrypt_extent_cases", nd);
